@@ -28,7 +28,8 @@ RULE = ("all registered views x {explicit, auto} x message kinds x structured in
         "non-trivial = the selected view is not `raw` and rendered without falling back / error text (keyed by view, family, "
         "input), or a DNS round trip of a message the view could render")
 ASSUMPTIONS = [
-    "a per-case SIGALRM of 20 s is the non-termination detector",
+    "non-termination detector: SIGALRM every 3 s flags a render blocked in queue.get/Condition.wait (single-threaded: nobody can wake it), "
+    "40 s CPU time (SIGVTALRM) or 240 s wall time otherwise",
     "DNS round trip: the unedited text is what prettify_message returns (i.e. after its control-character escaping)",
 ]
 LEVEL_TEXT = "Random exploration of all views with structured and mutated inputs; DNS round trip against an independent wire parser."
@@ -166,7 +167,11 @@ _zipf = st.lists(st.tuples(_str, st.binary(max_size=10)), max_size=3).map(_zip)
 _socketio = st.one_of(
     st.tuples(st.sampled_from(["0", "2", "3", "40", "42", "43", "4", "41", "42/ns,", "451-", "6"]), _json_val()).map(lambda t: (t[0] + json.dumps(t[1])).encode()),
     _nb.map(lambda b: b"42" + b))
-_wbxml = st.one_of(st.just(b"\x03\x01\x6a\x00\x45\x5c\x4f\x50\x03abc\x00\x01\x01\x01"), st.binary(max_size=20).map(lambda b: b"\x03\x01\x6a\x00" + b))
+_wbxml = st.one_of(
+    st.just(b"\x03\x01\x6a\x00\x45\x5c\x4f\x50\x03abc\x00\x01\x01\x01"),
+    st.binary(max_size=20).map(lambda b: b"\x03\x01\x6a\x00" + b),
+    st.lists(st.sampled_from([b"\x45", b"\x5c", b"\x4f", b"\x50", b"\x03abc\x00", b"\x03ab", b"\x01", b"\x00\x01", b"\xc3\x02hi", b"\x03\x1b[31m\x00"]),
+             max_size=8).map(lambda l: b"\x03\x01\x6a\x00" + b"".join(l)))
 _h3 = st.lists(st.tuples(st.sampled_from([0, 1, 3, 4, 7, 13, 0x21]), st.binary(max_size=12)), max_size=3).map(
     lambda l: b"".join(_varint_quic(t) + _varint_quic(len(p)) + p for t, p in l))
 
@@ -256,7 +261,7 @@ _mut = st.lists(st.one_of(
 
 @st.composite
 def _case(draw):
-    fam = draw(st.sampled_from(sorted(FAMILIES)))
+    fam = draw(st.sampled_from(sorted(FAMILIES) + ["dns"] * 5 + ["wbxml"] * 2))
     data = draw(FAMILIES[fam])
     if draw(st.integers(0, 3)) == 0:
         for op in draw(_mut):
@@ -273,7 +278,7 @@ def _case(draw):
            "mqtt": "mqtt", "multipart": "multipart form", "urlencoded": "url-encoded", "msgpack": "msgpack", "image": "image", "zip": "zip archive",
            "dns": "dns", "socketio": "socket.io", "wbxml": "wbxml", "h3": "http/3 frames", "bytes": "hex dump"}[fam]
     view = "auto" if mode == "auto" else own if mode == "own" else draw(st.sampled_from(VIEWS))
-    msg = draw(st.sampled_from(["http-req", "http-resp", "http-resp", "tcp", "udp", "ws-text", "ws-bin"] + (["dns"] if fam == "dns" else [])))
+    msg = draw(st.sampled_from(["http-req", "http-resp", "http-resp", "tcp", "udp", "ws-text", "ws-bin"] + (["dns", "dns", "udp", "tcp", "dns"] if fam == "dns" else [])))
     if fam == "dns" and msg == "tcp":
         data = struct.pack("!H", len(data) & 0xFFFF) + data   # DNS over TCP carries a length prefix
     ctype = draw(st.one_of(st.none(), st.sampled_from(CTYPES[fam]), st.sampled_from(CTYPES[fam]), st.sampled_from(sum(CTYPES.values(), []))))
@@ -377,8 +382,27 @@ class _Timeout(BaseException):
     pass
 
 
+_TICKS = [0]
+
+
 def _alarm(signum, frame):
-    raise _Timeout()
+    """SIGALRM every 3 s of wall time.  A render that sits in a blocking wait (queue.get / Condition.wait) in this
+    single-threaded process can never finish -> timeout immediately.  Otherwise the machine may just be busy: keep
+    waiting up to 240 s of wall time; busy loops are caught by the CPU-time timer (SIGVTALRM, 40 s)."""
+    fr = frame
+    while fr is not None:
+        fn = fr.f_code.co_filename
+        if (fn.endswith("/queue.py") and fr.f_code.co_name == "get") or (fn.endswith("/threading.py") and fr.f_code.co_name == "wait"):
+            raise _Timeout("blocked forever in %s:%s" % (fn.rsplit("/", 1)[-1], fr.f_code.co_name))
+        fr = fr.f_back
+    _TICKS[0] += 1
+    if _TICKS[0] >= 80:
+        raise _Timeout("no result after 240 s wall time")
+    signal.alarm(3)
+
+
+def _valarm(signum, frame):
+    raise _Timeout("no result after 40 s of CPU time")
 
 
 def bad_chars(s):
@@ -431,20 +455,33 @@ def check_case(case, ctx):
     except Exception:
         ctx.cls("dns-message-not-unpackable")
         return
+    chosen = case["view"]
+    try:
+        from mitmproxy.contentviews._utils import get_data, make_metadata
+        d0, _ = get_data(msg)
+        if d0 is not None:
+            chosen = contentviews.registry.get_view(d0, make_metadata(msg, f), case["view"]).name.lower()
+    except Exception:
+        pass
     old = signal.signal(signal.SIGALRM, _alarm)
-    signal.alarm(20)
+    oldv = signal.signal(signal.SIGVTALRM, _valarm)
+    _TICKS[0] = 0
+    signal.alarm(3)
+    signal.setitimer(signal.ITIMER_VIRTUAL, 40)
     try:
         try:
             res = contentviews.prettify_message(msg, f, case["view"])
-        except _Timeout:
-            ctx.fail("render-timeout:%s" % case["view"], "no result after 20 s: family=%s data=%r" % (case["family"], bytes(case["data"])[:200]))
+        except _Timeout as e:
+            ctx.fail("render-never-returns:%s" % chosen, "%s: view=%s family=%s ctype=%r data=%r" % (e, case["view"], case["family"], case["ctype"], bytes(case["data"])[:200]))
             return
         except Exception as e:
             ctx.crash(e, prefix="render-raises:%s" % case["view"])
             return
     finally:
         signal.alarm(0)
+        signal.setitimer(signal.ITIMER_VIRTUAL, 0)
         signal.signal(signal.SIGALRM, old)
+        signal.signal(signal.SIGVTALRM, oldv)
     text = res.text
     vname = res.view_name
     ok_render = (vname not in (None, "raw", "Raw") and "failed to parse" not in (res.description or "")
@@ -496,5 +533,10 @@ def check_case(case, ctx):
                             break
                     else:
                         sub = "record-count"
+                    if sub.startswith("record:rdata") and "(invalid " in text:
+                        # rdata the view cannot decode is shown as "0x<hex> (invalid <TYPE> data)"; that placeholder does not re-encode
+                        sub = "undecodable-rdata-placeholder"
+                if k == "flags" and (ref[k] ^ got[k]) & ~0x0070 == 0:
+                    sub = "flags:z-ad-cd-bits-dropped"
                 ctx.fail("dns-roundtrip:%s" % sub, "wire=%r out=%r\n orig=%r\n got=%r\n text=%r" % (wire[:150], out[:150], ref[k], got[k], text[:300]))
                 break
